@@ -99,7 +99,7 @@ def check(prop, tier, replay=None):
     seeds = []
     for name in ("dags", "limits_profile", "calendars", "teams_alts"):
         seeds += [("gen-" + pid, p.render()) for pid, p in getattr(gen, name)(rng, 3 if tier == "quick" else 25)]
-    fx = sorted(glob.glob(os.path.join(os.environ.get("VERIF_REPO", "/repo"), "tests/data/*.tjp")))
+    fx = sorted(glob.glob(os.path.join((os.environ.get("VERIF_REPO") or "/repo"), "tests/data/*.tjp")))
     if tier == "quick":
         fx = [f for f in fx if os.path.basename(f) in ("simple.tjp", "quota.tjp", "jit_supply.tjp", "failover.tjp", "thermal.tjp")]
     else:
